@@ -49,6 +49,15 @@ type sctpBackend struct {
 	closed bool
 	writes []sctpWrite
 	reads  int
+	stall  time.Duration // sctp wstall: the next armed write waits this long before it is taken
+	armed  bool
+}
+
+// armStall: the next SCTPWrite stalls (once) before the transport takes its bytes
+func (b *sctpBackend) armStall() {
+	b.mu.Lock()
+	b.armed = b.stall > 0
+	b.mu.Unlock()
 }
 
 func newSCTPBackend(chunks []sctpChunk, fin error) *sctpBackend {
@@ -84,6 +93,13 @@ func (b *sctpBackend) SCTPRead(p []byte) (int, uint16, bool, error) {
 
 func (b *sctpBackend) SCTPWrite(p []byte, stream uint16, ppid uint32) (int, error) {
 	b.mu.Lock()
+	if b.armed {
+		b.armed = false
+		d := b.stall
+		b.mu.Unlock()
+		time.Sleep(d)
+		b.mu.Lock()
+	}
 	defer b.mu.Unlock()
 	if b.closed {
 		return 0, errMemClosed
@@ -332,6 +348,10 @@ func genSctp(r *RNG, n int, op string, emit func(string)) {
 	}
 	if op == "canswer" {
 		genSctpCAnswer(r, n, emit)
+		return
+	}
+	if op == "wstall" {
+		genSctpWStall(r, n, emit)
 		return
 	}
 	for i := 0; i < n; i++ {
